@@ -325,6 +325,8 @@ def oracle(line, out):
         # duplicates; fed directly it is outside the statement (see ASSUMPTIONS)
         return None
     want = X.resolve(toks)
+    if "tree" not in X.parse_out(out):
+        return "malformed harness output: %s" % out[:200]
     got = list(X.preorder(X.parse_dump(X.parse_out(out)["tree"])))
     if len(got) != len(want):
         return ns_family(toks) + "number of created elements: got %d want %d" % (len(got), len(want))
